@@ -75,6 +75,13 @@ MUTANTS = {
         (MC, '    # the row is appended to the results file by the parent process (see main), which is the only writer of that file\n    return result_s\n',
          "    with open(output_file, 'a') as f:\n        half = len(result_s) // 2\n        f.write(result_s[:half])\n        f.flush()\n        f.write(result_s[half:])\n    return ''\n")],
         'concurrent appends in two syscalls'),
+    'hip_result_file_numbered_by_class_level_counter': ('C14', {'row_not_reproducible', 'row_malformed', 'failure_leak', 'stats_mismatch'}, [
+        ('src/hip_ra/__init__.py', "class HipRaInputParameters:\n", "class HipRaInputParameters:\n    _runs = 0\n"),
+        ('src/hip_ra/__init__.py', "            tempfile.gettempdir(), f'hip-ra-result_{self._input_file_path.stem}_{uuid.uuid1()!s}.out'\n",
+         "            tempfile.gettempdir(), f'hip-ra-result_{HipRaInputParameters._runs}.out'\n"),
+        ('src/hip_ra/__init__.py', "        self._input_file_path = Path(file_path_or_params_dict)\n",
+         "        self._input_file_path = Path(file_path_or_params_dict)\n        HipRaInputParameters._runs += 1\n")],
+        'every forked worker counts from the value the parent had: needs per-process CLASS attributes in the simulation'),
     'thread_pool_instead_of_process_pool': ('C14', {'row_not_reproducible', 'row_malformed', 'failure_leak'}, [
         (MC, 'concurrent.futures.ProcessPoolExecutor(initializer=np.random.seed)', 'concurrent.futures.ThreadPoolExecutor()')],
         'threads share cwd and sys.argv, which every run rewrites'),
